@@ -107,6 +107,101 @@ def run(chk) -> None:
     _r30b(chk, repo)
     _r30c(chk, repo)
     _r30d(chk, repo)
+    chk.rule("R30e", "two patches for the same source range that are not duplicates always conflict: under `first.source_slice == second.source_slice` _patches_conflict returns `first.fixed_raw != second.fixed_raw` (the identity the duplicate test uses) or True, nothing normalised")
+    chk.rule("R30f", "in the slicer the head of the source-only stack is compared with the patch only after the source-only slices before the patch have been flushed: the flush loop precedes the equality pop in every iteration")
+    _r30e(chk, repo)
+    _r30f(chk, repo)
+
+
+def _r30e(chk, repo) -> None:
+    from ..idioms import conditions_at
+
+    f = repo.fn(PATCH, "_patches_conflict")
+    cfg = cfg_of(f)
+    ps = [a.arg for a in f.args.args]
+    if len(ps) != 2:
+        raise AnalysisError("R30e: _patches_conflict no longer takes two patches; re-confirm the anchor by hand")
+
+    def attr_of_param(e, at, attr):
+        """parameter name when ``e`` is ``<param>.<attr>`` (read directly or through a local)."""
+        if isinstance(e, ast.Name):
+            x = sole_expr_origin(cfg, e, at)
+            if x is None or isinstance(x, ast.Name):
+                return None
+            e = x
+        if isinstance(e, ast.Attribute) and e.attr == attr and isinstance(e.value, ast.Name):
+            return param_origin(cfg, e.value, at)
+        return None
+
+    def same_slice_known(st) -> bool:
+        for e, pol in conditions_at(cfg, st):
+            if pol and isinstance(e, ast.Compare) and len(e.ops) == 1 and isinstance(e.ops[0], ast.Eq):
+                a, b = attr_of_param(e.left, st, "source_slice"), attr_of_param(e.comparators[0], st, "source_slice")
+                if a and b and {a, b} == set(ps):
+                    return True
+        return False
+
+    n = 0
+    for r in [r for r in walk_local(f) if isinstance(r, ast.Return) and r.value is not None]:
+        if not same_slice_known(r):
+            continue
+        n += 1
+        v, neg = r.value, False
+        for _ in range(4):
+            if isinstance(v, ast.UnaryOp) and isinstance(v.op, ast.Not):
+                v, neg = v.operand, not neg
+            elif isinstance(v, ast.Name):
+                x = sole_expr_origin(cfg, v, r)
+                if x is None or x is v:
+                    break
+                v = x
+            else:
+                break
+        ok = isinstance(v, ast.Constant) and v.value is True and not neg
+        if isinstance(v, ast.Compare) and len(v.ops) == 1 and isinstance(v.ops[0], ast.Eq if neg else ast.NotEq):
+            a, b = attr_of_param(v.left, r, "fixed_raw"), attr_of_param(v.comparators[0], r, "fixed_raw")
+            ok = bool(a and b and {a, b} == set(ps))
+        chk.require(
+            ok, "R30e", r,
+            f"for two patches with the same source range _patches_conflict returns `{short(r.value, 60)}`, not `first.fixed_raw != second.fixed_raw`: two different replacements of one "
+            "range (for an empty range: two insertions at one point) can both be kept, the slicer emits the range twice and the builder applies the first patch to both",
+            detail="_patches_conflict: same range -> conflict unless the replacement text is identical",
+        )
+    chk.count("R30e.same_range_returns", n)
+    chk.floor("R30e.same_range_returns", 1)
+
+
+def _r30f(chk, repo) -> None:
+    from ..idioms import conditions_at
+
+    f = repo.fn(LFILE, "LintedFile._slice_source_file_using_patches")
+    cfg = cfg_of(f)
+    n = 0
+    for l in [l for l in walk_local(f) if isinstance(l, ast.For)]:
+        pops = []
+        for c in [c for c in ast.walk(l) if isinstance(c, ast.Call) and last_attr(c) == "pop" and isinstance(c.func, ast.Attribute) and isinstance(c.func.value, ast.Name)]:
+            st = cfg.stmt_of(c)
+            stack = c.func.value.id
+            eq = False
+            for e, pol in conditions_at(cfg, st):
+                if pol and isinstance(e, ast.Compare) and len(e.ops) == 1 and isinstance(e.ops[0], ast.Eq) and stack in {x.id for x in ast.walk(e) if isinstance(x, ast.Name)} \
+                        and any(isinstance(x, ast.Attribute) and x.attr == "source_slice" for x in ast.walk(e)):
+                    eq = True
+            if eq:
+                pops.append((st, stack))
+        for st, stack in pops:
+            n += 1
+            flushes = [w for w in ast.walk(l) if isinstance(w, ast.While) and stack in {x.id for x in ast.walk(w.test) if isinstance(x, ast.Name)}
+                       and any(isinstance(c, ast.Call) and last_attr(c) == "pop" and isinstance(c.func.value, ast.Name) and c.func.value.id == stack for c in ast.walk(w))]
+            ok = bool(flushes) and any(cfg.dominates(w, st) for w in flushes)
+            chk.require(
+                ok, "R30f", st,
+                f"the slicer compares the patch with the head of `{stack}` (and pops it on equality) before the source-only slices that start before the patch have been flushed: the head "
+                "is then an earlier tag, nothing is popped, and the replaced tag's range is emitted a second time by the next flush (the source fix is applied twice)",
+                detail="slicer: equality pop after the flush of earlier source-only slices",
+            )
+    chk.count("R30f.equality_pops", n)
+    chk.floor("R30f.equality_pops", 1)
 
 
 # ---------------------------------------------------------------------------
@@ -633,6 +728,30 @@ def _r30d(chk, repo) -> None:
 from ..selftest import Variant  # noqa: E402
 
 VARIANTS = [
+    Variant(
+        "same-range-conflict-ignores-whitespace", PATCH,
+        "        return first.fixed_raw != second.fixed_raw\n",
+        "        return first.fixed_raw.strip() != second.fixed_raw.strip()\n",
+        "R30e", "_patches_conflict", "seeded C30-3: two insertions at one point differing in whitespace are both kept",
+    ),
+    Variant(
+        "same-range-never-conflicts", PATCH,
+        "        return first.fixed_raw != second.fixed_raw\n",
+        "        return False\n",
+        "R30e", "_patches_conflict",
+    ),
+    Variant(
+        "quiet-same-range-conflict-through-locals", PATCH,
+        "        return first.fixed_raw != second.fixed_raw\n",
+        "        same_text = second.fixed_raw == first.fixed_raw\n        return not same_text\n",
+        "QUIET", None, "R30e: equality in a local, negated, operands swapped",
+    ),
+    Variant(
+        "slicer-equality-pop-before-the-flush", LFILE,
+        "            while (\n                source_only_slices\n                and source_only_slices[0].source_idx < patch.source_slice.start\n            ):\n",
+        "            if (\n                source_only_slices\n                and patch.source_slice == source_only_slices[0].source_slice()\n            ):\n                source_only_slices.pop(0)\n            while (\n                source_only_slices\n                and source_only_slices[0].source_idx < patch.source_slice.start\n            ):\n",
+        "R30f", "_slice_source_file_using_patches", "seeded C30-4 (an extra early pop): the head is an earlier tag",
+    ),
     # behaviour-preserving refactors: must stay quiet
     Variant(
         "quiet-merge-flat-list-and-loop-conflict-test", PATCH,
